@@ -16,10 +16,10 @@ PROPS = {"C08": "model_checking"}
 HARNESS = ["zz_verif_routing_test.go", "zz_verif_life_test.go"]
 PROFILES = {
     "quick": dict(design=[("life_cur.cfg", 900), ("life_cur_full.cfg", 900), ("life_ideal.cfg", 900), ("life_batch.cfg", 900),
-                          ("life_batch_mut.cfg", 900)],
+                          ("life_batch_mut.cfg", 900), ("life_ack_mut.cfg", 900)],
                   gen=[("sim_q.cfg", 150, 40), ("sim_b.cfg", 60, 40)], limit=1500),
     "thorough": dict(design=[("life_cur.cfg", 300), ("life_cur_full.cfg", 300), ("life_ideal.cfg", 300),
-                             ("life_cur3.cfg", 3000), ("life_ideal3.cfg", 3000), ("life_batch.cfg", 900), ("life_batch_mut.cfg", 900)],
+                             ("life_cur3.cfg", 3000), ("life_ideal3.cfg", 3000), ("life_batch.cfg", 900), ("life_batch_mut.cfg", 900), ("life_ack_mut.cfg", 900)],
                      gen=[("sim_q.cfg", 1500, 40), ("sim_t.cfg", 800, 60), ("sim_b.cfg", 600, 40)], limit=30000),
 }
 OBS_RE = re.compile(r'<<(\d+), "(\w+)", "(\w+)", (-?\d+)>>')
@@ -91,6 +91,10 @@ def retry_schedules():
         {"id": "retry-deliver", "cmds": up + [A("RBatchRetry", 1)] + snd + [A("RRetry", 1), A("RExit", 1), A("RCleanup", 1)]},
         {"id": "retry-successor", "cmds": up + [A("RBatchRetry", 1), A("RTerm", 2), A("RSetAck", 2), A("RSetRest", 2), A("RExit", 1), A("RCleanup", 1)]},
         {"id": "batch-deliver", "cmds": snd + up + [A("RBatch", 1), A("RExit", 1), A("RCleanup", 1)]},
+        # the sender's side of the same: an acknowledgement of the target for a source shard whose receiver is between incarnations
+        {"id": "sretry-end", "cmds": snd + [A("SAckRetry", 1), A("EndS", 1), A("SClose", 1), A("SUnreg", 1), A("SRmChan", 1)]},
+        {"id": "sretry-deliver", "cmds": snd + [A("SAckRetry", 1)] + up + [A("SRetry", 1), A("EndS", 1), A("SClose", 1), A("SUnreg", 1), A("SRmChan", 1)]},
+        {"id": "sack-deliver", "cmds": up + snd + [A("SAck", 1), A("SAck", 1), A("EndS", 1), A("SClose", 1), A("SUnreg", 1), A("SRmChan", 1)]},
     ]
 
 
